@@ -91,7 +91,8 @@ def ops_for(spec, rnd):
             O.append((f"{st}.jobs.insert(0,{j})", lambda b, st=st, j=j: b[st].jobs.insert(0, b[j]), lambda m, key=key, j=j: m[key].insert(0, j), "insert"))
             O.append((f"{st}.jobs.extend([{j},{j}])", lambda b, st=st, j=j: b[st].jobs.extend([b[j], b[j]]), lambda m, key=key, j=j: m[key].extend([j, j]), "extend-duplicate"))
             O.append((f"{st}.jobs+=[{j}]", lambda b, st=st, j=j: b[st].__setattr__("jobs", b[st].jobs.__iadd__([b[j]])), lambda m, key=key, j=j: m[key].extend([j]), "iadd"))
-            O.append((f"{st}.jobs=[{j}]", lambda b, st=st, j=j: setattr(b[st], "jobs", [b[j]]), lambda m, key=key, j=j: m.__setitem__(key, [j]), "assign-list"))
+            O.append((f"{st}.jobs=[{j}]", lambda b, st=st, j=j: setattr(b[st], "jobs", [b[j]]), lambda m, key=key, j=j: m.__setitem__(key, [j]), "assign-list",
+                      lambda b, st=st, j=j: [b[st].jobs, [b[j]]]))
             O.append((f"{st}.jobs[0]={j}", lambda b, st=st, j=j: b[st].jobs.__setitem__(0, b[j]), lambda m, key=key, j=j: m[key].__setitem__(0, j), "setitem"))
             O.append((f"{st}.jobs.remove({j})", lambda b, st=st, j=j: b[st].jobs.remove(b[j]), lambda m, key=key, j=j: m[key].remove(j), "remove-object"))
         O.append((f"{st}.jobs.pop()", lambda b, st=st: b[st].jobs.pop(), lambda m, key=key: m[key].pop(), "pop"))
@@ -112,15 +113,18 @@ def ops_for(spec, rnd):
         O.append((f"{uj}.uj_steps.pop()", lambda b, uj=uj: b[uj].uj_steps.pop(), lambda m, key=key: m[key].pop(), "pop"))
     for up in ups:
         for uj in journeys:
-            O.append((f"{up}.usage_journey={uj}", lambda b, up=up, uj=uj: setattr(b[up], "usage_journey", b[uj]), lambda m: None, "assign-object"))
+            O.append((f"{up}.usage_journey={uj}", lambda b, up=up, uj=uj: setattr(b[up], "usage_journey", b[uj]), lambda m: None, "assign-object",
+                      lambda b, up=up, uj=uj: [b[up].usage_journey, b[uj]]))
         for n in spec["networks"]:
-            O.append((f"{up}.network={n}", lambda b, up=up, n=n: setattr(b[up], "network", b[n]), lambda m: None, "assign-object"))
+            O.append((f"{up}.network={n}", lambda b, up=up, n=n: setattr(b[up], "network", b[n]), lambda m: None, "assign-object",
+                      lambda b, up=up, n=n: [b[up].network, b[n]]))
         key = (up, "devices")
         for d in spec["devices"]:
             O.append((f"{up}.devices.append({d})", lambda b, up=up, d=d: b[up].devices.append(b[d]), lambda m, key=key, d=d: m[key].append(d), "append"))
     for j in jobs:
         for sv in spec["servers"]:
-            O.append((f"{j}.server={sv}", lambda b, j=j, sv=sv: setattr(b[j], "server", b[sv]), lambda m: None, "assign-object"))
+            O.append((f"{j}.server={sv}", lambda b, j=j, sv=sv: setattr(b[j], "server", b[sv]), lambda m: None, "assign-object",
+                      lambda b, j=j, sv=sv: [b[j].server, b[sv]]))
     return O
 
 
@@ -134,7 +138,8 @@ def mirror_of(spec):
 
 
 def _history(args):
-    tname, spec, seq_idx, seed = args
+    tname, spec, seq_idx, seed = args[:4]
+    grouped = len(args) > 4 and args[4]
     H.deterministic_ids(6)
     out = {"topology": tname, "ops": [], "status": "ok", "fails": [], "kinds": []}
     try:
@@ -144,8 +149,20 @@ def _history(args):
         namemir = lambda: {k: [b[x].name for x in v] for k, v in mir.items()}
         f0 = check_links(b, namemir())
         if f0: out["status"] = "initial-state-inconsistent"; out["fails"] = f0; return out
+        if grouped:
+            sel = [ops[i] for i in seq_idx]
+            out["ops"] = ["GROUPED: " + " + ".join(o[0] for o in sel)]; out["kinds"] = ["grouped"] + [o[3] for o in sel]
+            for o in sel: o[2](mir)
+            try:
+                H.ModelingUpdate([o[4](b) for o in sel])
+            except Exception as ex:
+                if H.is_float_cancellation_rejection(ex): out["status"] = "D3"; return out
+                out["status"] = "operation-raises"; out["fails"] = [f"{type(ex).__name__}: {str(ex)[:120]}"]; return out
+            f = check_links(b, namemir())
+            if f: out["status"] = "inconsistent"; out["fails"] = f
+            return out
         for i in seq_idx:
-            name, live, mfn, kind = ops[i]
+            name, live, mfn, kind = ops[i][:4]
             out["ops"].append(name); out["kinds"].append(kind)
             m2 = copy.deepcopy(mir)
             py_exc = None
@@ -220,6 +237,19 @@ def run(tier, seed, procs=16):
         npairs = 150 if tier == "quick" else 1200
         for _ in range(npairs):
             items.append((tname, spec, tuple(rnd.randrange(n) for _ in range(rnd.choice((2, 2, 3)))), seed))
+        ops = ops_for(spec, None)
+        # grouped updates: every pair of object / list assignments that touch different slots, in one ModelingUpdate
+        ch = [i for i, o in enumerate(ops) if len(o) > 4]
+        slot = lambda o: o[0].split("=")[0]
+        gp = [(i, j) for i in ch for j in ch if i != j and slot(ops[i]) != slot(ops[j])]
+        for p in (gp if tier == "thorough" else rnd.sample(gp, min(60, len(gp)))):
+            items.append((tname, spec, p, seed, True))
+    # systematic: every ordered pair of operations on the richest step and its journey (survivors after a removal, then a second edit)
+    spec = T["two_independent_chains"]; ops = ops_for(spec, None)
+    own = [i for i, o in enumerate(ops) if o[0].startswith(("step1.", "del step1.")) or "step1.jobs=step1" in o[0]]
+    pairs = [(i, j) for i in own for j in own]
+    if tier == "quick": pairs = [p for k, p in enumerate(pairs) if (k + seed) % 3 == 0]
+    items += [("two_independent_chains", spec, p, seed) for p in pairs]
     res = H.run_parallel(_history, items, procs)
     res += [_two_systems((t,)) for t in ("network", "job", "journey", "server")]
     viol, samples, nontrivial = [], [], set()
